@@ -307,7 +307,9 @@ def _over_wiring(chk, repo, m):
            "expr.context_kwargs.get('partition_by')" in psrc and "expr.context_kwargs.get('arrange')" in psrc and "compile_order(order, name_in_df) for order in arrange" in psrc,
            "the Polars window specification is not built from the expression's own partition_by= / arrange=")  # fmt: skip
     for c in calls_in(pf):
-        if isinstance(c.func, ast.Attribute) and c.func.attr == "sort_by" and "order_by" in norm(c):
+        if isinstance(c.func, ast.Attribute) and c.func.attr == "sort_by" and (
+            (kwarg(c, "by") is not None and "order_by" in norm(kwarg(c, "by"))) or (c.args and norm(c.args[0]) == "order_by")
+        ):
             by, d, nl = kwarg(c, "by"), kwarg(c, "descending"), kwarg(c, "nulls_last")
             good = by is not None and norm(by) == "order_by" and d is not None and norm(d) == "descending" and nl is not None and "nulls_last" in norm(nl)
             chk.ob("R5", pol, c, f"polars sort_by(by=order_by, descending=descending, nulls_last=..): {norm(c)[:60]}", good,
